@@ -53,7 +53,7 @@ def render_model(schema, routes):
             body.append('    attrs')
             body.append('        style = "%s"' % r['style'])
             if r.get('scope'):
-                body.append('        scope = "%s"' % r['scope'])
+                body.append('        scope = "%s"' % r['scope'].replace('\\', '\\\\').replace('\n', '\\n'))
             body.append('        auth = "%s"' % r.get('auth', 'user'))
             body.append('')
         have = {l.split()[1] for l in lines if l.startswith('import ')}
